@@ -24,6 +24,8 @@ class EntropyDevice:
         self.fault = None           # None | "EIO" | "NOSYS" | "EAGAIN_ONCE"
         self.fault_hits = {}
         self.served = b""
+        self.forced = None          # bytes to serve next instead of the keyed stream (bit-sensitivity tests)
+        self.env_reads = {}         # environment variables read while a request was in flight
         self._saved = []
 
     def reseed(self, key=None, epoch=None):
@@ -52,6 +54,13 @@ class EntropyDevice:
             if f == "EAGAIN_ONCE":
                 self.fault = None
                 raise BlockingIOError(errno.EAGAIN, "entropy pool not initialised (simulated)")
+        if self.forced is not None:
+            while len(self.forced) < n:
+                self.forced += hashlib.sha512(b"forced-tail|" + self.forced[-64:]).digest()
+            out, self.forced = self.forced[:n], self.forced[n:]
+            self.requests.append([n, self.tag, self.epoch, "ok", via])
+            self.served += out
+            return out
         while len(self.buf) < n:
             self._more()
         out, self.buf = self.buf[:n], self.buf[n:]
@@ -89,6 +98,68 @@ class EntropyDevice:
         if pin_clock:
             self.clock = SimClock()
             self.clock.install(self._saved)
+        self._install_env_seam()
+
+    def _install_env_seam(self):
+        """os.environ / os.getenv as seen through the `os` module log which variables are READ while a tagged
+        request is in flight, and serve planted values for them (adaptive fault injection: a variable the code
+        was seen to consult is set to a truthy value in a later request)."""
+        dev = self
+        real = os.environ
+        self.env_planted = {}
+
+        class LoggingEnviron(type(real)):
+            def __init__(self_inner):
+                pass
+
+            def __getattr__(self_inner, name):
+                return getattr(real, name)
+
+            def _log(self_inner, key):
+                if dev.tag is not None and isinstance(key, str):
+                    dev.env_reads[key] = dev.env_reads.get(key, 0) + 1
+
+            def __getitem__(self_inner, key):
+                self_inner._log(key)
+                if dev.tag is not None and key in dev.env_planted:
+                    return dev.env_planted[key]
+                return real[key]
+
+            def get(self_inner, key, default=None):
+                self_inner._log(key)
+                if dev.tag is not None and key in dev.env_planted:
+                    return dev.env_planted[key]
+                return real.get(key, default)
+
+            def __contains__(self_inner, key):
+                self_inner._log(key)
+                if dev.tag is not None and key in dev.env_planted:
+                    return True
+                return key in real
+
+            def __iter__(self_inner):
+                return iter(real)
+
+            def __len__(self_inner):
+                return len(real)
+
+            def __setitem__(self_inner, key, value):
+                real[key] = value
+
+            def __delitem__(self_inner, key):
+                del real[key]
+
+            def copy(self_inner):
+                return real.copy()
+
+        try:
+            wrapped = LoggingEnviron()
+        except Exception:
+            return
+        self._saved.append((os, "environ", real))
+        os.environ = wrapped
+        self._saved.append((os, "getenv", os.getenv))
+        os.getenv = lambda key, default=None: wrapped.get(key, default)
 
     def uninstall(self):
         for mod, name, val in reversed(self._saved):
